@@ -11,6 +11,7 @@
 package main
 
 import (
+	"crypto/sha1"
 	"encoding/json"
 	"fmt"
 	"io"
@@ -348,7 +349,12 @@ type problem struct {
 
 func (n *net) key(kind string) string {
 	c := n.c
-	return fmt.Sprintf("%s|%s|%s|to=%d|origin=%d|limit=%d|ways=%s", kind, c.World, c.Profile, c.To, c.Origin, c.Limit, vh.Canon(c.Ways))
+	ways := vh.Canon(c.Ways)
+	if len(c.Ways) > 6 {
+		// large random network: name it by a digest (the replay file has the network)
+		ways = fmt.Sprintf("%d-ways-sha1:%x", len(c.Ways), sha1.Sum([]byte(ways)))[:32]
+	}
+	return fmt.Sprintf("%s|%s|%s|to=%d|origin=%d|limit=%d|ways=%s", kind, c.World, c.Profile, c.To, c.Origin, c.Limit, ways)
 }
 
 // checkChain: segs is a chain of usable segments from the origin to dest; returns its cost
